@@ -338,6 +338,8 @@ def _decide(mod, desc, opts, res, rlimit, V, ctx, claims, exc):
             return
 
     eqs, fails, unsats = [], [], []
+    if getattr(mod, 'LABEL_MOVEMENT', False) and V.names:
+        res['nontrivial'] = True
     for c in claims:
         if isinstance(c, Eq):
             eqs.append(c)
